@@ -1,11 +1,13 @@
 #!/bin/bash
 # usage: tools/confirm_seed.sh <dir with patch.diff and demo.py>  -> prints demo_clean=<rc> demo_patched=<rc> suite=<ok|FAIL>
+# The stored demo is never modified: a copy with the scratch worktree's path substituted is run.
 dir="$(realpath "$1")"
 d=$(mktemp -d /tmp/vk_seed.XXXXXX)
 git -C /repo worktree add --detach -f "$d/repo" HEAD >/dev/null 2>&1
-demo=$(ls "$dir"/demo.* | head -1)
+src=$(ls "$dir"/demo.* | head -1)
+demo="$d/$(basename "$src")"
+sed -E "s#/tmp/mut_[A-Za-z0-9_]+#$d/repo#g" "$src" > "$demo"
 run_demo() { (cd "$d/repo" && PYTHONPATH="$d/repo/src" REPO_ROOT="$d/repo" timeout 600 /venv/bin/python "$demo" >/dev/null 2>&1; echo $?); }
-sed -i "s#/tmp/mut_[A-Za-z0-9_]*#$d/repo#g" "$demo" 2>/dev/null
 c=$(run_demo)
 git -C "$d/repo" apply "$dir/patch.diff" || echo "PATCH FAILED"
 p=$(run_demo)
